@@ -65,6 +65,9 @@ impl SyslogWriter {
 }
 impl LogWriter for SyslogWriter {
     fn write(&self, now: &mut DeferredNow, record: &log::Record) -> IoResult<()> {
+        if record.level() > self.max_log_level {
+            return Ok(());
+        }
         let mut conn_buf_guard = self
             .m_conn_buf
             .lock()
